@@ -15,7 +15,7 @@ def plan(t):
 def tokenb(b): return z3.Or(z3.And(z3.UGE(b, 65), z3.ULE(b, 90)), z3.And(z3.UGE(b, 97), z3.ULE(b, 122)))
 
 
-def valb(b): return z3.And(z3.UGE(b, 0x21), z3.ULE(b, 0x7e))
+def valb(b): return z3.Or(z3.And(z3.UGE(b, 0x20), z3.ULE(b, 0x7e)), b == 0x09)      # any printable text incl. blanks at either end, and TAB
 
 
 def mk_response(params, cons, table):
